@@ -1,0 +1,46 @@
+//go:build verif
+
+// Contracts for package size, read by /verif/govc (never compiled into normal builds).
+// Properties: C04, C08, C12, C13 and size's share of C16, C17, C18.
+
+package size
+
+//@ config MaxInputLength
+//@ domain MaxInputLength >= 0
+//@ config MaxObjectKeys
+//@ config DisableMarshalTextUnit
+//@ config DisableMarshalJSONStringForm
+//@ config DisableMarshalJSONObjectForm
+//@ config DefaultRule
+//@ config Formatter = DefaultFormatter
+//@ config Parser = DefaultParser[[]byte]
+//@ constvar shortenUnits unitToValues zeroUnits
+
+// ---- C13: shortening, from the statement: the largest unit from B to EiB that divides the size without remainder --
+//@ pure func shExp(s uint64) int = ite(s == 0, 0, ite(s%1024 != 0, 0, ite(s%1048576 != 0, 1, ite(s%1073741824 != 0, 2, ite(s%1099511627776 != 0, 3,
+//@     ite(s%1125899906842624 != 0, 4, ite(s%1152921504606846976 != 0, 5, 6)))))))
+//@ pure func pow1024(k int) uint64 = ite(k == 0, 1, ite(k == 1, 1024, ite(k == 2, 1048576, ite(k == 3, 1073741824, ite(k == 4, 1099511627776, ite(k == 5, 1125899906842624, 1152921504606846976))))))
+//@ pure func shVal(s uint64) uint64 = s / pow1024(shExp(s))
+//@ pure func binUnit(k int) bytes = ite(k == 0, "B", ite(k == 1, "KiB", ite(k == 2, "MiB", ite(k == 3, "GiB", ite(k == 4, "TiB", ite(k == 5, "PiB", "EiB"))))))
+
+//@ func (Size).Shorten
+//@   ensures [C13.exact C13.max] value == shVal(uint64(s)) && unit == binUnit(shExp(uint64(s)))
+//@   ensures [C13.exact] mathint(value) * mathint(pow1024(shExp(uint64(s)))) == mathint(uint64(s))
+//@   bound len(unit) <= 3
+//@   loop 0 unroll 6
+
+// ---- C13: rendering: the digits of the value, grouped in threes from the right when pretty, then the unit --------
+//@ pure func sepText(f Format) bytes = ite(f&FormatPretty == 0, "", ite(f&FormatHTML == 0, " ", "&nbsp;"))
+//@ pure func nDigits(v uint64) int = len(decText(v))
+//@ pure func digitPart(v uint64, i int) bytes = ite(i < nDigits(v), seq(decText(v)[i]), "")
+//@ pure func sepPart(v uint64, i int, f Format) bytes = ite(i < nDigits(v) && fmod(nDigits(v)-1-i, 3) == 0, sepText(f), "")
+
+//@ func DefaultFormatter
+//@   ensures [C13.render C16.append] err == nil
+//@   ensures [C13.render C16.append] result == old(buf) ++ (cat i in 0..20 :: digitPart(shVal(uint64(s)), i) ++ sepPart(shVal(uint64(s)), i, f)) ++ binUnit(shExp(uint64(s)))
+//@   ensures [C16.inplace] sameOrFresh(result, buf)
+//@   assigns buf[len(buf):]
+//@   loop 0 unroll 20
+
+//@ func appendSeparator
+//@   inline
